@@ -127,3 +127,60 @@ def run_main_from(cfg, rng, start_state):
     if isinstance(res, list):  # a driver that hands back the bare trace
         res = {"trace": res}
     return res, data
+
+
+def run_wired(run_args, completion_order=None):
+    """The real phyclone.run.run() - data loading, seeding, chain submission, collection, trace writer - with the process
+    pool replaced by an executor that computes the submitted chains in this process (in the given completion order).
+    Returns the result dictionary read back from the trace file the run wrote."""
+    import gzip
+    import os
+    import pickle
+    import shutil
+    import tempfile
+    import phyclone.run as prun
+
+    class Fut(object):
+        def __init__(self, fn, args, kwargs):
+            self.fn, self.args, self.kwargs, self._res, self._done = fn, args, kwargs, None, False
+
+        def result(self):
+            if not self._done:
+                self._res, self._done = self.fn(*self.args, **self.kwargs), True
+            return self._res
+
+        def exception(self):
+            return None
+
+    class Exec(object):
+        def __init__(self, *a, **k):
+            pass
+
+        def __enter__(self):
+            return self
+
+        def __exit__(self, *a):
+            return False
+
+        def submit(self, fn, *args, **kwargs):
+            return Fut(fn, args, kwargs)
+
+    def as_completed(futs):
+        futs = list(futs)
+        order = completion_order if completion_order is not None else range(len(futs))
+        for c in order:
+            futs[c].result()
+            yield futs[c]
+
+    old = prun.ProcessPoolExecutor, prun.as_completed
+    prun.ProcessPoolExecutor, prun.as_completed = Exec, as_completed
+    d = tempfile.mkdtemp(prefix="wired_", dir="/dev/shm" if os.path.isdir("/dev/shm") else None)
+    try:
+        path = os.path.join(d, "t.pkl.gz")
+        with contextlib.redirect_stdout(io.StringIO()):
+            prun.run(out_file=path, **run_args)
+        with gzip.GzipFile(path, "rb") as fh:
+            return pickle.load(fh)
+    finally:
+        prun.ProcessPoolExecutor, prun.as_completed = old
+        shutil.rmtree(d, ignore_errors=True)
